@@ -185,10 +185,13 @@ theorem SufP.parseR6rsChar (f : Nat) : SufP (parseR6rsChar f) := by
 
 theorem SufP.asChar (n : Nat) : SufP (asChar n) := by simp only [Parse.asChar]; sufp
 
+theorem SufP.asEscapedChar (n : Nat) : SufP (asEscapedChar n) := by
+  simp only [Parse.asEscapedChar]; sufp [SufP.asChar]
+
 theorem SufP.decodeElispCharEscape (f : Nat) : SufP (decodeElispCharEscape f) := by
   simp only [Parse.decodeElispCharEscape]
   sufp [SufP.nextOrEofChar, SufP.nextOrEof, SufP.decodeElispHexEscape, SufP.decodeElispUniEscape,
-    SufP.decodeElispOctalEscape, SufP.asChar, SufP.decodeUtf8Sequence]
+    SufP.decodeElispOctalEscape, SufP.asChar, SufP.asEscapedChar, SufP.decodeUtf8Sequence]
 
 theorem SufP.parseElispChar (f : Nat) : SufP (parseElispChar f) := by
   simp only [Parse.parseElispChar]; sufp [SufP.decodeUtf8Sequence, SufP.decodeElispCharEscape]
@@ -711,6 +714,19 @@ theorem asChar_ok {n c : Nat} {s s' : St} (h : asChar n s = .ok c s') : s' = s :
   · exact (pure_ok h).2.symm
   · simp [errAt] at h
 
+theorem asEscapedChar_asuf {n c : Nat} {s s' : St} (h : asEscapedChar n s = .ok c s') :
+    ASuf s s' := by
+  unfold asEscapedChar at h
+  rcases ite_ok h with ⟨_, h⟩ | ⟨_, h⟩
+  · obtain ⟨o, s1, hp, h⟩ := bind_ok h
+    cases o with
+    | none => simp [errAt] at h
+    | some b =>
+      dsimp only at h
+      rw [asChar_ok h]
+      exact peek_same hp
+  · rw [asChar_ok h]; exact ASuf.refl s
+
 theorem not_gt_ascii {c : UInt8} (h : ¬ c > 0x7F) : c < 0x80 := by
   rw [UInt8.lt_iff_toNat_lt]
   have : ¬ (0x7F : UInt8).toNat < c.toNat := fun hh => h (UInt8.lt_iff_toNat_lt.mpr hh)
@@ -802,14 +818,12 @@ theorem decodeElispCharEscape_pres {f : Nat} {s s' : St} {r : Nat}
   rcases ite_ok h with ⟨hc, h⟩ | ⟨_, h⟩
   · have hs1 : SV s1 := hs.tail hm1 hr1 (by rw [eq_of_beq hc]; decide)
     obtain ⟨n, s2, hx, h⟩ := bind_ok h
-    rw [asChar_ok h]
-    exact hs1.of_asuf (decodeElispHexEscape_asuf _ hx)
+    exact (hs1.of_asuf (decodeElispHexEscape_asuf _ hx)).of_asuf (asEscapedChar_asuf h)
   -- octal
   rcases ite_ok h with ⟨hc, h⟩ | ⟨_, h⟩
   · have hs1 : SV s1 := hs.tail hm1 hr1 (octal_range_ascii hc)
     obtain ⟨n, s2, hx, h⟩ := bind_ok h
-    rw [asChar_ok h]
-    exact hs1.of_asuf (decodeElispOctalEscape_asuf _ hx)
+    exact (hs1.of_asuf (decodeElispOctalEscape_asuf _ hx)).of_asuf (asEscapedChar_asuf h)
   -- a non-ASCII character
   rcases ite_ok h with ⟨hc, h⟩ | ⟨hc, h⟩
   · obtain ⟨⟨ch, bytes⟩, s2, hseq, h⟩ := bind_ok h
